@@ -87,7 +87,10 @@ def canon_pin(pin, d, out):
             out.append('X')
     elif isinstance(pin, InnerPin):
         port = pin.port
-        if port is None or port.definition is not d or pin not in port.pins:
+        if port is None:
+            out.append('L')   # removed from its port, still on the wire
+            return
+        if port.definition is not d or pin not in port.pins:
             out.append('X')
             return
         out += ['I', tok_oname(port.name), str(port.pins.index(pin))]
